@@ -1,10 +1,10 @@
 #!/bin/bash
 # run_seed2.sh <seed-id> <property> [tier] [extra check args]: run a property's check against the round-2 scratch
-# worktree /tmp/wt2/<seed-id> (HEAD + patch) without touching /repo; log under /tmp/wt2-out/<seed-id>/
+# worktree ${WTROOT:-/tmp/wt2}/<seed-id> (HEAD + patch) without touching /repo; log under ${WTROOT:-/tmp/wt2}-out/<seed-id>/
 sid=$1; pid=$2; tier=${3:-quick}; shift; shift; shift
 cd /verif
-export VERIF_REPO=/tmp/wt2/$sid VERIF_SCRATCH=/var/tmp/vscratch/$sid
+export VERIF_REPO=${WTROOT:-/tmp/wt2}/$sid VERIF_SCRATCH=/var/tmp/vscratch/$sid
 mkdir -p $VERIF_SCRATCH
-./check $pid --tier $tier "$@" > /tmp/wt2-out/$sid/check_$tier.log 2>&1
+./check $pid --tier $tier "$@" > ${WTROOT:-/tmp/wt2}-out/$sid/check_$tier.log 2>&1
 rc=$?
-echo "$sid/$pid $tier rc=$rc $(grep -c '^VIOLATION' /tmp/wt2-out/$sid/check_$tier.log) violations; keys: $(grep -o 'failure \[[^]]*\]' /tmp/wt2-out/$sid/check_$tier.log | sort | uniq -c | tr '\n' ' ')"
+echo "$sid/$pid $tier rc=$rc $(grep -c '^VIOLATION' ${WTROOT:-/tmp/wt2}-out/$sid/check_$tier.log) violations; keys: $(grep -o 'failure \[[^]]*\]' ${WTROOT:-/tmp/wt2}-out/$sid/check_$tier.log | sort | uniq -c | tr '\n' ' ')"
